@@ -47,6 +47,14 @@ def gen_cases(tier, seed):
             h.call(8, a_clear_dtc(0x123456, 1), [], [])
             h.set_cfg(cl.STD, 2020).call(8, a_clear_dtc(0x123456, 1), [], [])
             yield h.case(5000, 'edition through set_config')
+        # a refused edition stays in the configuration: every later configuration change, whichever entry it writes (set_config or
+        # set_configs of several entries), is refused as well until a valid edition is set
+        for std in EDITIONS:
+            cfgv = list(cl.DEFAULT_CFG)
+            cfgv[cl.STD] = std
+            h = cl.H(cfgv).set_cfg(cl.REQ_TO, 3000000).set_cfg(cl.STD, v).set_cfg(cl.REQ_TO, 4000000).set_cfg(cl.P2, 500000)
+            h.set_cfg(cl.TOL_PAD, 0).set_cfg(cl.STD, 2013).set_cfg(cl.P2S, 6000000).set_cfg(cl.EX_NEG, 0)
+            yield h.case(5000, 'later configuration changes')
 
 
 def worker_init():
@@ -86,6 +94,16 @@ def oracle(c, r):
         bad = v not in EDITIONS
         if (r[:2] == [2, 2]) != bad:
             return ('edition-value', 'set_config(standard_version=%d) %s' % (v, 'raised' if r[:2] == [2, 2] else 'did not raise'))
+        return None
+    if c.tag == 'later configuration changes':
+        cur, want = list(cfgv), []
+        for o in ops:
+            cur[o[1]] = o[2]
+            if cur[cl.STD] not in EDITIONS:
+                want += [2, 2]
+        if r[:len(want)] != want or len(r) != len(want) + 5:
+            return ('edition-on-later-change', 'configuration changes %r: ConfigError pattern %r, expected %r (a change is refused exactly while the '
+                    'edition in the configuration is not 2006/2013/2020)' % ([(o[1], o[2]) for o in ops], r[:-5], want))
         return None
     d = cl.parse_calls(r, 1)[0][0]
     _, callid, args, cb, reps = ops[0]
